@@ -2,8 +2,7 @@
  *
  * A libcoap client context and a server context in one process and one thread, real loopback
  * TCP sockets, real clock, real GnuTLS (TLS-PSK).  Link-time wraps (no source change):
- *   coap_socket_write coap_socket_read   every byte of the two stream directions is logged
- *                                        (and bytes can be injected into a direction)
+ *   coap_socket_write                    every byte of the two stream directions is logged
  *   gnutls_handshake                     result log
  * The two contexts are driven alternately with coap_io_process(ctx, COAP_IO_NO_WAIT).
  * coap_send() on a TCP/TLS client session blocks inside libcoap until the session is
@@ -55,7 +54,6 @@ static int hs_ok[2];
 /* ------------------------------------------------------------------ stream capture */
 typedef struct { uint8_t *b; size_t n, cap; } buf_t;
 static buf_t g_dir[2];        /* 0: client -> server, 1: server -> client */
-static buf_t g_inj[2];        /* bytes to hand to the reader of direction d first */
 static void buf_add(buf_t *x, const uint8_t *d, size_t n) {
   if (x->n + n > x->cap) {
     x->cap = (x->cap + n) * 2 + 64;
@@ -74,20 +72,6 @@ ssize_t __wrap_coap_socket_write(coap_socket_t *sock, const uint8_t *data, size_
   ssize_t r = __real_coap_socket_write(sock, data, len);
   if (r > 0) buf_add(&g_dir[is_client_side(sock) ? 0 : 1], data, (size_t)r);
   return r;
-}
-
-ssize_t __real_coap_socket_read(coap_socket_t *sock, uint8_t *data, size_t len);
-ssize_t __wrap_coap_socket_read(coap_socket_t *sock, uint8_t *data, size_t len) {
-  buf_t *inj = &g_inj[is_client_side(sock) ? 1 : 0];
-  if (inj->n > 0) {
-    size_t k = inj->n < len ? inj->n : len;
-    memcpy(data, inj->b, k);
-    memmove(inj->b, inj->b + k, inj->n - k);
-    inj->n -= k;
-    emit("n.injread:%s:%zu", is_client_side(sock) ? "c" : "s", k);
-    return (ssize_t)k;
-  }
-  return __real_coap_socket_read(sock, data, len);
 }
 
 int __real_gnutls_handshake(gnutls_session_t s);
@@ -275,7 +259,7 @@ static void run_case(void) {
   uint8_t buf[2048];
   tr_len = 0;
   if (tr) tr[0] = 0;
-  for (int d = 0; d < 2; d++) g_dir[d].n = g_inj[d].n = 0;
+  for (int d = 0; d < 2; d++) g_dir[d].n = 0;
   hs_ok[0] = hs_ok[1] = 0;
   n_rsp = 0;
   g_cs = g_ss = NULL;
